@@ -21,6 +21,9 @@ fn mkdir(p: &str) -> Op {
 fn sync_all(p: &str) -> Op {
     Op::SyncAll { p: p.into(), fe: Fe::Std }
 }
+fn rmdir(p: &str) -> Op {
+    Op::RemoveDir { p: p.into(), fe: Fe::Std }
+}
 fn sync_dir(p: &str) -> Op {
     Op::SyncDir { p: p.into(), fe: Fe::Std }
 }
@@ -119,7 +122,93 @@ pub fn c10() -> Vec<(&'static str, Vec<Op>)> {
                 sync_dir("/"),
             ],
         ),
+        // ---- defect-hunting round (NOTES (g)) ----
+        // hunted C10-1, zone `recreate` (rename onto a name vacated by a pending rename)
+        (
+            "swap-via-vacated-name",
+            vec![w("/a", 4, 0), w("/b", 2, 1), mv("/a", "/d"), mv("/b", "/a")],
+        ),
+        // hunted C10-5, zone `recreate` (file under a former directory name)
+        (
+            "file-under-former-dir-name-renamed",
+            vec![
+                mkdir("/d"),
+                sync_dir("/"),
+                rmdir("/d"),
+                w("/d", 1, 0),
+                mv("/d", "/b"),
+                Op::ReadDir { p: "/b".into(), fe: Fe::Std },
+            ],
+        ),
+        // hunted C10-6, zone `recreate` (synced data of the removed file shows through)
+        (
+            "recreate-after-remove-of-synced-file",
+            vec![
+                w("/a", 4, 0),
+                sync_all("/a"),
+                sync_dir("/"),
+                rm("/a"),
+                Op::Open { p: "/a".into(), fl: Flags::parse("rwx"), fe: Fe::Std },
+            ],
+        ),
+        // hunted C10-7 / C07-4a, zone `rename-pending-data` (destination has unsynced writes)
+        (
+            "rename-onto-file-with-unsynced-data",
+            vec![
+                w("/a", 2, 0),
+                sync_all("/a"),
+                w("/b", 8, 1),
+                mv("/a", "/b"),
+                sync_dir("/"),
+            ],
+        ),
+        // hunted C10-8, zone `recreate` (log rotation)
+        (
+            "log-rotation",
+            vec![
+                w("/a", 4, 0),
+                sync_all("/a"),
+                sync_dir("/"),
+                mv("/a", "/b"),
+                w("/a", 1, 1),
+            ],
+        ),
+        // hunted C10-3: an open handle does not follow its file across rename
+        (
+            "handle-across-rename",
+            vec![Op::Handle {
+                p: "/a".into(),
+                fl: Flags::parse("rwc"),
+                steps: vec![
+                    Step::Write { n: 4, key: 0 },
+                    Step::SyncAll,
+                    Step::Rename { a: "/a".into(), b: "/b".into() },
+                    Step::SyncAll,
+                    Step::WriteAt { off: 0, n: 2, key: 25 },
+                    Step::ReadAt { off: 0, n: 8 },
+                ],
+                fe: Fe::Std,
+            }],
+        ),
         // these conform (kept as fixed regression scenarios for the fix commits)
+        // hunted C10-2 (fixed): sync_dir of a re-created directory
+        (
+            "sync-recreated-dir",
+            vec![mkdir("/d"), rmdir("/d"), mkdir("/d"), sync_dir("/d")],
+        ),
+        // hunted C10-4 (fixed): POSIX error kinds of create_dir / remove_dir / rename
+        (
+            "error-kinds",
+            vec![
+                mkdir("/d"),
+                mkdir("/d"),
+                mkdir("/a/b"),
+                rmdir("/b"),
+                mv("/b", "/a"),
+                w("/d/a", 1, 0),
+                rmdir("/d"),
+            ],
+        ),
         (
             "rename-onto-existing-synced",
             vec![
@@ -207,6 +296,87 @@ pub fn c07() -> Vec<(&'static str, crate::real::Cfg, Vec<Op>)> {
                 Op::RemoveDirAll { p: "/d".into(), fe: Fe::Std },
                 sync_dir("/"),
                 mkdir("/d"),
+                sync_dir("/"),
+                Op::Crash,
+            ],
+        ),
+        // ---- defect-hunting round (NOTES (g)) ----
+        // hunted C07-1, zone `recreate`
+        (
+            "recreate-sync-crash",
+            Cfg::default(),
+            vec![
+                w("/a", 9, 0),
+                sync_all("/a"),
+                sync_dir("/"),
+                rm("/a"),
+                w("/a", 3, 13),
+                sync_all("/a"),
+                sync_dir("/"),
+                Op::Crash,
+            ],
+        ),
+        // hunted C07-2, zone `recreate` (rename onto a name unlinked in another directory)
+        (
+            "rename-onto-unlinked-name-cross-dir",
+            Cfg::default(),
+            vec![
+                mkdir("/a"),
+                mkdir("/d"),
+                sync_dir("/"),
+                w("/a/a", 4, 0),
+                sync_all("/a/a"),
+                sync_dir("/a"),
+                w("/d/b", 2, 6),
+                sync_all("/d/b"),
+                sync_dir("/d"),
+                rm("/a/a"),
+                mv("/d/b", "/a/a"),
+                sync_dir("/d"),
+                sync_dir("/a"),
+                Op::Crash,
+            ],
+        ),
+        // hunted C07-3, zone `rename-pending-data`
+        (
+            "write-rename-syncdir-syncfile-crash",
+            Cfg::default(),
+            vec![
+                w("/a", 4, 0),
+                mv("/a", "/b"),
+                sync_dir("/"),
+                sync_all("/b"),
+                Op::Crash,
+            ],
+        ),
+        // hunted C07-4b, zone `recreate` (stale pending writes of a removed file)
+        (
+            "stale-writes-reach-new-file",
+            Cfg::default(),
+            vec![
+                w("/a", 4, 0),
+                sync_all("/a"),
+                sync_dir("/"),
+                wat("/a", 0, 2, 1),
+                rm("/a"),
+                sync_dir("/"),
+                Op::Open { p: "/a".into(), fl: crate::ops::Flags::parse("wx"), fe: Fe::Std },
+                sync_dir("/"),
+                sync_all("/a"),
+                Op::Crash,
+            ],
+        ),
+        // hunted C07-5, zone `rename-dir`
+        (
+            "rename-durable-dir-crash",
+            Cfg::default(),
+            vec![
+                mkdir("/d"),
+                sync_dir("/"),
+                w("/d/a", 4, 0),
+                sync_all("/d/a"),
+                sync_dir("/d"),
+                mv("/d", "/b"),
                 sync_dir("/"),
                 Op::Crash,
             ],
